@@ -2,6 +2,7 @@
    C11, events to C05, blackboard to C12, the wait set to C20).
    Only statements; proofs in proofs/ConnProofs.v and proofs/PortProofs.v. *)
 From V Require Import model.Base model.Conn model.Port proofs.ConnProofs proofs.PortProofs.
+From Coq Require Import Lia.
 
 (* ---- the data segment is large enough ----------------------------------------------------- *)
 (* PROVED by counting through the conservation invariant, for every state that satisfies it (that
@@ -52,7 +53,7 @@ Proof.
     assert (Hr : c_receive (set_sub_used (conn_new 1 1 false 4) [{| q_off := 2; q_idx := 0 |}] [2])
                  = (set_sub_borrow (set_sub_used (conn_new 1 1 false 4) [{| q_off := 2; q_idx := 0 |}] [2]) [] 1, RcvOk (Some {| q_off := 2; q_idx := 0 |}))) by reflexivity.
     pose proof (receive_spec _ _ _ _ H1 Hr) as H2. cbn in H2. destruct H2 as (_ & _ & _ & _ & H2). exact H2.
-  - split; [reflexivity|]. intros x. cbn. destruct (Nat.eq_dec 2 x); reflexivity.
+  - split; [reflexivity|]. intros x. cbn [count_occ]. destruct (Nat.eq_dec 2 x); lia.
 Qed.
 Print Assumptions c08_release_never_full_nonvacuous.
 
@@ -96,5 +97,5 @@ Print Assumptions c08_reject_clean_partial.
 Example c08_reject_clean_partial_nonvacuous :
   p_L (getp sat_world 0) <= p_loans (getp sat_world 0)
   /\ first_free (r_slots (w_preg sat_world)) 0 = None /\ first_free (r_slots (w_sreg sat_world)) 0 = None.
-Proof. vm_compute. repeat split. Qed.
+Proof. vm_compute. repeat split; auto. Qed.
 Print Assumptions c08_reject_clean_partial_nonvacuous.
